@@ -99,12 +99,12 @@ def readline_specs():
         'readline_linecpy': FnSpec(pre=['maxlen >= 1', 'maxlen <= 1073741824'], extents={'line': 'maxlen'},
                                    post=[dict(name='length', then=['ret >= 0', 'ret <= maxlen - 1', 'ret <= rl.line.len'])]),
         'readline_putchar': FnSpec(post=[
-            dict(name='bounded-growth', then=['line.len_post <= line.len + 1', 'line.cap_post == line.cap']),
+            dict(name='capacity-unchanged', then=['line.cap_post == line.cap']),
             dict(name='status-range', then=['ret >= -1', 'ret <= 9']),
             dict(name='printable-inserted', when=['state == 0', 'line.len <= line.cap - 2'] + KEY_SPECIAL,
                  then=['ret == 1', 'line.len_post == line.len + 1', 'line.cursor_post == line.cursor + 1', 'state_post == 0']),
             dict(name='printable-refused-not-echoed', when=['state == 0', 'line.len >= line.cap - 1'] + KEY_SPECIAL,
-                 then=['ret != 1', 'line.len_post == line.len', 'line.cursor_post == line.cursor']),
+                 then=['ret == -1', 'line.len_post == line.len', 'line.cursor_post == line.cursor']),
             dict(name='backspace', when=['state == 0', 'c == 8', 'line.cursor >= 1'],
                  then=['ret == 3', 'line.len_post == line.len - 1', 'line.cursor_post == line.cursor - 1']),
             dict(name='backspace-at-start', when=['state == 0', 'c == 8', 'line.cursor == 0'],
@@ -128,7 +128,8 @@ def readline_specs():
 def run_readline(rep, repo):
     mod = witness('w_readline.c', repo)
     rep.units.append('witness/w_readline.c -> igris/shell/readline.h, igris/defs/vt100.h')
-    ext = {'strlen': ext_strlen_slot, 'igris_i32toa': ext_i32toa}
+    from absint import ext_pure
+    ext = {'strlen': ext_strlen_slot, 'igris_i32toa': ext_i32toa, 'strncmp': ext_pure}
     it = Interp(mod, externals=ext)
     run = ContractRun(it, [RL])
     for fname, spec in readline_specs().items():
@@ -145,6 +146,40 @@ def run_readline(rep, repo):
     rep.floor('R-VT100:bounds', 2)
 
 
+def run_twin(rep, repo):
+    """R-TWIN: igris::readline::newdata obeys the same per-(state, key) table as readline_putchar (history disabled)"""
+    mod = witness('w_readlinexx.cpp', repo)
+    rep.units.append('witness/w_readlinexx.cpp -> igris/shell/readlinexx.h, igris/container/sline.h')
+    inv = ['_line.sl.cursor >= 0', '_line.sl.cursor <= _line.sl.len', '_line.sl.len + 1 <= _line.sl.cap', '_state >= 0',
+           '_state <= 3']
+    TW = StructSpec('class.igris::readline', inv=inv, owns={'_line.sl.buf': '_line.sl.cap'},
+                    fixed={'_line.sl.cap': CAP, '_history_space.m_size': 0})
+    import re
+
+    def tr(t):
+        t = re.sub(r'\bline\.', '_line.sl.', t)
+        for a in ('state', 'last', 'curhist'):
+            t = re.sub(r'\b%s(_post)?\b' % a, lambda m_, a=a: '_' + a + (m_.group(1) or ''), t)
+        return t
+    posts = []
+    for pc in readline_specs()['readline_putchar'].post:
+        posts.append(dict(name=pc['name'], when=[tr(w) for w in pc.get('when', [])], then=[tr(t) for t in pc['then']]))
+    it = Interp(mod, externals={'strlen': ext_strlen_slot, 'strncmp': __import__('absint').ext_pure})
+    run = ContractRun(it, [TW])
+    f = cxx(mod, 'igris::readline', 'newdata')
+    run.run(f, FnSpec(structs={'this': TW}, post=posts))
+    obs = summarize(it, run)
+    for o in obs:
+        if o.get('call_stack'):
+            o['root'] = 'igris::readline::newdata'
+            fo = mod.fn(o['function'])
+            o['leaf'] = fo.qualname if fo is not None and fo.srcname else o['function']
+        else:
+            o['function'] = 'igris::readline::newdata'
+    rep.add_absint('R-TWIN', obs)
+    rep.floor('R-TWIN:post', 30)
+
+
 def run(rep, repo, tier):
     rep.explanation = (
         'Abstract interpretation (linear-inequality domain over LLVM IR, see DESIGN.md 3.2) of every sline '
@@ -158,6 +193,7 @@ def run(rep, repo, tier):
     rep.units.append('witness/w_sline.c -> igris/datastruct/sline.h')
     run_contracts(rep, 'R-SLINE', mod, [SLINE], SLINE_FNS)
     run_readline(rep, repo)
+    run_twin(rep, repo)
     rep.floor('R-SLINE:bounds', 25)
     rep.floor('R-SLINE:invariant', 60)
     rep.floor('R-SLINE:post', 20)
